@@ -83,7 +83,8 @@ def module_source(kinds, layout='functions'):
             i += 2
         else:
             # layout 'special:<name>': the first callable is called like a command word of the runner (all, dump, list)
-            fname = layout.split(':', 1)[1] if (layout.startswith('special:') and i == 0) else 'f%d' % i
+            # (every fifth plain function has a non-ASCII identifier: legal, and what the runner is given as its name)
+            fname = layout.split(':', 1)[1] if (layout.startswith('special:') and i == 0) else ('f\xe9%d' % i if i % 5 == 4 else 'f%d' % i)
             src += ['def %s():' % fname, '    r"""']
             src += ['    ' + l for l in doc_lines(kind, i)]
             src += ['    """', '']
